@@ -80,6 +80,9 @@ def run_accounting(case):
     import tenpy.networks.mpo as mpo_mod
     eng_name = case['engine']
     family = 'tdvp' if 'TDVP' in eng_name else ('mpo' if 'ExpMPO' in eng_name else 'tebd')
+    if family == 'mpo' and case.get('inject') == 'truncate':
+        # SVD / zip_up compression: every truncation MPO.apply performs goes through truncate()
+        family = 'tdvp'
     orig_truncate = tr.truncate
     orig_apply = mpo_mod.MPO.apply
     if family == 'tdvp':
